@@ -64,6 +64,11 @@ func (e *Enc) staticWrites(fn *ssa.Function, blocks map[*ssa.BasicBlock]bool, w 
 			case *ssa.MakeMap:
 				md, _ := e.mapComps(in.Type().Underlying().(*types.Map))
 				w.add(md, e.comps[md])
+			case *ssa.Next:
+				if rng, ok := in.Iter.(*ssa.Range); ok && !in.IsString {
+					mt := rng.X.Type().Underlying().(*types.Map)
+					w.add("GHseen_"+sanitize(rng.Name()), fmt.Sprintf("(Array %s Bool)", e.sortOf(mt.Key())))
+				}
 			case *ssa.Go, *ssa.Send, *ssa.Select, *ssa.Defer, *ssa.RunDefers:
 				w.full = true
 				w.why = fmt.Sprintf("%T", in)
@@ -375,6 +380,21 @@ func (f *Frame) invariantsFor(ord int) []*Clause {
 
 func (f *Frame) invEnv(h *ssa.BasicBlock, phis map[string]CVal, st *State) *CEnv {
 	errs := []string{}
+	for _, in := range h.Instrs {
+		if nx, ok := in.(*ssa.Next); ok && !nx.IsString {
+			if rng, ok := nx.Iter.(*ssa.Range); ok {
+				mt := rng.X.Type().Underlying().(*types.Map)
+				comp := seenComp(f, rng)
+				sortName := fmt.Sprintf("(Array %s Bool)", f.e.sortOf(mt.Key()))
+				cp := map[string]CVal{}
+				for k, v := range phis {
+					cp[k] = v
+				}
+				cp["$seen"] = CVal{S: f.e.comp(st, comp, sortName), T: mt.Key()}
+				phis = cp
+			}
+		}
+	}
 	return &CEnv{e: f.e, vars: f.params, st: st, old: f.entrySt, pkg: f.fn.Pkg.Pkg, frame: f, at: h, phis: phis, lets: f.e.unit.Lets, errs: &errs}
 }
 
@@ -533,7 +553,23 @@ func domDepth(b *ssa.BasicBlock) int {
 
 // mapNext: ghost "seen" set for map range loops — hook for invariants (seen keys are distinct, in dom).
 func (f *Frame) mapNext(in *ssa.Next, rng *ssa.Range, ok, k string) {
-	// the visited-set ghost is modelled on demand by invariants through uf("seen", ...); nothing to do here
+	e := f.e
+	mt := rng.X.Type().Underlying().(*types.Map)
+	comp := seenComp(f, rng)
+	ks := e.sortOf(mt.Key())
+	sortName := fmt.Sprintf("(Array %s Bool)", ks)
+	seen := e.comp(f.st, comp, sortName)
+	md, _ := e.mapComps(mt)
+	hd := e.comp(f.st, md, e.comps[md])
+	m := f.val(rng.X)
+	// a yielded key is in the map and was not yielded before; when the iteration ends every key was yielded
+	e.assume(f.reach, fmt.Sprintf("(=> %s (not (select %s %s)))", ok, seen, k))
+	e.assume(f.reach, fmt.Sprintf("(=> (not %s) (forall ((|q.k| %s)) (! (=> (and (not (= %s 0)) (select (select %s %s) |q.k|)) (select %s |q.k|)) :pattern ((select %s |q.k|)))))", ok, ks, m, hd, m, seen, seen))
+	e.setComp(f.st, comp, fmt.Sprintf("(ite %s (store %s %s true) %s)", ok, seen, k, seen))
+}
+
+func seenComp(f *Frame, rng *ssa.Range) string {
+	return "GHseen_" + sanitize(f.prefix+rng.Name())
 }
 
 // runDefers applies deferred calls in LIFO order.
@@ -549,6 +585,9 @@ func (f *Frame) runDefers() {
 // frameFact: every location of component comp that was allocated at entry and is not listed in
 // excl is unchanged between states a (entry) and b.
 func (e *Enc) frameFact(comp string, a, b *State, excl []string) string {
+	if strings.HasPrefix(comp, "GHseen_") {
+		return "" // ghost iteration state, not program memory
+	}
 	sortName := e.comps[comp]
 	ta, tb := e.comp(a, comp, sortName), e.comp(b, comp, sortName)
 	if ta == tb {
